@@ -17,13 +17,16 @@ def build(tier):
            unwind=66, functions=['BitSet<64,-16>::* (bitSet.hpp)', 'BitUtil::firstBit/lastBit/bitCount'], bounds='all 2^64 words; arguments in [-16,47]; plus boundary calls removeLarger(-17), removeSmaller(-16)'),
         Ob('O1b-bitset192', u, 'h_bitset192', 'BitSet<192>: setRange(0,n-1) for n in 0..192, set/clearBit, getMin/MaxBit, empty, removeSmaller/Larger vs set semantics',
            unwind=5, functions=['BitSet<192>::* (bitSet.hpp)'], bounds='all 2^192 contents; arguments in [0,191]'),
-        Ob('O2-arc', u, 'h_arc', 'makeArcConsistent on a single constraint v1 <= v2 + c (v1 != v2 and v1 == v2): never prunes a value of a solution pair, never answers unsolvable when a pair exists, domains only shrink',
-           unwind=70, timeout=1200, functions=['CspSolver::makeArcConsistent (cspsolver.cpp:204-250)', 'BitSet ops'], bounds='arbitrary 64-bit domains D1,D2 (incl. empty); c in [-70,70]; loop bound 70 >= 64 possible shrink steps + 2 (checked by unwinding assertions)'),
+        Ob('O2-arc@distinct', u, 'h_arc', 'makeArcConsistent on a single constraint v1 <= v2 + c between two distinct variables: never prunes a value of a solution pair, never answers unsolvable when a pair exists, domains only shrink',
+           unwind=6, param=0, timeout=1200, functions=['CspSolver::makeArcConsistent (cspsolver.cpp:204-250)', 'BitSet ops'], bounds='arbitrary 64-bit domains D1,D2 (incl. empty); c in [-70,70]; either orientation; revision loop bound 6 (a single arc is stable after one pass; checked by unwinding assertions)'),
+        Ob('O2-arc@self', u, 'h_arc', 'makeArcConsistent on a self constraint v <= v + c: sound and exact', unwind=10, param=1, timeout=1200,
+           functions=['CspSolver::makeArcConsistent'], bounds='domain inside any window of 6 consecutive values; c in [-70,70]; loop bound 10'),
     ]
     units = [u]
     RECUR = '_ZN9CspSolver14solveRecursiveEiRSt6vectorIiSaIiEE'
     ARC = '_ZN9CspSolver17makeArcConsistentEv.0'
-    configs = [(2, 2, 3, True, ('quick', 'thorough'))] if tier == 'quick' else [(2, 2, 3, True, ('thorough',)), (3, 3, 3, False, ('thorough',))]
+    # solve() through std::vector::assign + recursion: symex did not finish within 16 GB even for 2 variables / 1 constraint (see DESIGN.md); kept as an extended thorough-tier attempt only
+    configs = [] if tier == 'quick' else [(2, 1, 2, False, ('thorough',))]
     for (nv, nc, w, core, tiers) in configs:
         us = Unit('solve%d%d%d' % (nv, nc, w), 'C20/csp.cpp', ['h_solve'], defines={'MAXV': nv, 'MAXC': nc, 'WIDTH': w},
                   allow_extern=[r'_ZStls.*', r'_ZNSols.*'])
